@@ -57,6 +57,15 @@ PROPS = {
         "design_ref": "DESIGN.md section 7, C08",
         "assumptions": ["scalars are exact real numbers", "documented preconditions: l!=r, b!=t, 0<near<far, 0<fov<pi, aspect>0"],
     },
+    "C10": {
+        "claimed": True,
+        "technique": "Coq proof over R: structural decomposition of the translated unprojection into product, general inverse and tail (by conversion), then C06-style inverse theorem + linear algebra (field/nsatz)",
+        "level_text": "world_to_viewport_{no,zo} (both layouts) are proved, for ALL inputs, to be the viewport map of the perspective-divided clip position (depth remapped only in _no); for EVERY model-view/projection pair with det(proj*mv) != 0, viewport of non-zero size and clip w != 0, viewport_to_world of the projected point is proved to return the original point THROUGH the real code of both functions (the unprojection program is shown by conversion to be product -> general inverse -> tail, the inverse is proved two-sided, then the algebra closes); the picking matrix maps the four corners (at any depth) of every window rectangle onto the clip square, and panics exactly on non-positive size (failed for off-centre regions on the pinned tree; repaired by a fix: commit).",
+        "level_note": "Trusted: Coq kernel; stdlib real-number axioms as printed; symx translator (self-checked each run); Rust parametricity. Exact real arithmetic.",
+        "design_ref": "DESIGN.md section 7, C10",
+        "assumptions": ["scalars are exact real numbers"],
+        "coq_timeout": 1500,
+    },
 }
 
 for _k in PROPS: PROPS[_k].setdefault("selfcheck", {"quick": 200, "thorough": 5000})
